@@ -60,13 +60,6 @@ fn witness_shape(mut h: Hist) -> Hist {
             {
                 false
             }
-            // (a PUBREL carrying v5 properties is region R12)
-            (_, Op::Raw { pkt, .. }) if matches!(pkt, Raw::PubRelProps(_)) => {
-                if let Raw::PubRelProps(id) = pkt {
-                    *pkt = Raw::PubRel(*id);
-                }
-                true
-            }
             // raw ids 0 and 1 are the witnesses' own router ids: a forged signal with a live id
             // cannot be told from the connection's own
             (None, Op::Stale { id, .. }) => {
